@@ -63,6 +63,8 @@ struct Cx<'a, 'b> {
     nprobes: usize,
     pref: ProbePref,
     readable: &'a [String],
+    /// every name some `let` / loop / repeat of the program binds, anywhere
+    bound_anywhere: BTreeSet<String>,
 }
 
 #[allow(clippy::too_many_arguments)]
@@ -87,8 +89,13 @@ fn do_row(
         let pool: Vec<&String> = match cx.pref {
             ProbePref::Vars => vars.clone(),
             ProbePref::Device => {
+                // device names that are a variable elsewhere in the program (in a loop that
+                // has ended, in another branch) are the interesting ones: prefer them
+                let elsewhere: Vec<&String> = pure_device.iter().copied().filter(|n| cx.bound_anywhere.contains(*n)).collect();
                 if !shadowing.is_empty() && cx.ch.chance(1, 4) {
                     shadowing.clone()
+                } else if !elsewhere.is_empty() && cx.ch.chance(1, 2) {
+                    elsewhere
                 } else {
                     pure_device.clone()
                 }
@@ -174,8 +181,18 @@ pub fn instrument(b: &mut Built, ch: &mut Ch, nprobes: usize, pref: ProbePref, r
     frame_lets(&b.prog.stmts, &mut possible);
     let mut definite = BTreeSet::new();
     let mut frames = vec![BTreeSet::new()];
+    let mut bound_anywhere = BTreeSet::new();
+    b.prog.visit_stmts(&mut |s, _| match s {
+        Stmt::Let(n, _) | Stmt::Loop(n, _, _) => {
+            bound_anywhere.insert(n.clone());
+        }
+        Stmt::Repeat(..) => {
+            bound_anywhere.insert("n".to_string());
+        }
+        _ => {}
+    });
     {
-        let mut cx = Cx { ch, rows: &mut rows, nprobes, pref, readable };
+        let mut cx = Cx { ch, rows: &mut rows, nprobes, pref, readable, bound_anywhere };
         block(&mut b.prog.stmts, &mut definite, &possible, &mut frames, 0, &mut cx);
     }
     b.cols = col_roles(&b.prog.header, &b.sigs);
